@@ -113,6 +113,78 @@ def failneg(x):
   return x
 
 
+# ---- cached calls with unhashable / ambiguous-== arguments reached through distinct copies ('copies' cases)
+
+class Amb:
+  """Unhashable, picklable, and `==` has no truth value at all (an ndarray of several elements is the common case)."""
+  __hash__ = None
+
+  def __init__(self, data):
+    self.data = list(data)
+
+  def __eq__(self, other):
+    raise ValueError('The truth value of an Amb comparison is ambiguous')
+
+
+def flat(x):
+  """canonical flat list of numbers of an argument value"""
+  import numpy as np
+  if isinstance(x, Amb):
+    return list(x.data)
+  if isinstance(x, dict):
+    return list(x['w'])
+  if isinstance(x, tuple) and x and isinstance(x[0], np.ndarray):
+    return [float(v) for v in x[0].reshape(-1)]
+  if x is None:
+    return []
+  return [float(v) for v in np.asarray(x, dtype=float).reshape(-1)]
+
+
+def ones(n):
+  LOG.append('ones')
+  return [1] * n
+
+
+class Model:
+  """A 'model' that is expensive to build, hence built once and cached.  `serial` numbers the constructions in the
+  process, so the identity of the object behind a result stays observable through a call chain."""
+  COUNT = [0]
+
+  def __init__(self, weights, bias=None):
+    LOG.append('Model')
+    Model.COUNT[0] += 1
+    self.serial = Model.COUNT[0]
+    self.weights = weights
+    self.bias = bias
+
+  def __call__(self, x):
+    LOG.append('Model.call')
+    return [w * x for w in flat(self.weights)], self.serial
+
+
+def copy_arg(kind, weights):
+  import numpy as np
+  if kind == 'ndarray':
+    return np.array(weights, dtype=float)
+  if kind == 'ndarray2d':
+    return np.array([weights, weights], dtype=float)
+  if kind == 'ndarray1':
+    return np.array(weights[:1], dtype=float)
+  if kind == 'list':
+    return list(weights)
+  if kind == 'dict':
+    return {'w': list(weights)}
+  if kind == 'amb':
+    return Amb(weights)
+  if kind == 'tuple':
+    return tuple(weights)
+  if kind == 'int':
+    return weights[0]
+  if kind == 'tuple_arr':
+    return (np.array(weights, dtype=float),)
+  raise ValueError(kind)
+
+
 LIB = {
     'add': add, 'mul': mul, 'pair': pair, 'len': len_, 'ident': ident, 'mkrec': mkrec,
     'counter': counter, 'failneg': failneg, 'getattr': getattr, 'getitem': operator.getitem,
